@@ -2,6 +2,7 @@ package rules
 
 import (
 	"fmt"
+	"go/constant"
 	"go/token"
 	"go/types"
 	"sort"
@@ -60,6 +61,120 @@ func isLoadOfCell(v ssa.Value, cell ssa.Value) bool {
 		}
 	}
 	return false
+}
+
+// c14RoutesNowhere: every return reachable over the CFG edge from -> to answers "no machine" to Route's caller.
+// In Route itself that is `return nil, false, ...`.  In a helper of Route with a single bool result it is: all these
+// returns give the same constant verdict, and at every call of the helper in Route the branch taken on that verdict
+// routes nowhere.
+func c14RoutesNowhere(route *ssa.Function, from, to *ssa.BasicBlock, depth int) bool {
+	f := to.Parent()
+	reach := flow.ReachableFrom(to, nil)
+	reach[to] = true
+	// the values result i can have at the return in block b when coming over the edge
+	resultsAt := func(b *ssa.BasicBlock, v ssa.Value) []ssa.Value {
+		phi, isPhi := v.(*ssa.Phi)
+		if !isPhi || phi.Block() != b {
+			return []ssa.Value{v}
+		}
+		var out []ssa.Value
+		for i, e := range phi.Edges {
+			if pr := b.Preds[i]; reach[pr] || (b == to && pr == from) {
+				out = append(out, e)
+			}
+		}
+		return out
+	}
+	isBool := func(v ssa.Value, want bool) bool {
+		cst, isC := v.(*ssa.Const)
+		return isC && cst.Value != nil && cst.Value.Kind() == constant.Bool && constant.BoolVal(cst.Value) == want
+	}
+	var rets []*ssa.Return
+	for b := range reach {
+		if ret, isRet := b.Instrs[len(b.Instrs)-1].(*ssa.Return); isRet {
+			rets = append(rets, ret)
+		}
+	}
+	if len(rets) == 0 {
+		return false
+	}
+	if f == route {
+		for _, ret := range rets {
+			if len(ret.Results) < 2 {
+				return false
+			}
+			for _, v := range resultsAt(ret.Block(), ret.Results[0]) {
+				if !ssau.IsNilConst(v) {
+					return false
+				}
+			}
+			for _, v := range resultsAt(ret.Block(), ret.Results[1]) {
+				if !isBool(v, false) {
+					return false
+				}
+			}
+		}
+		return true
+	}
+	if depth > 0 || f.Signature.Results().Len() != 1 || !types.Identical(f.Signature.Results().At(0).Type().Underlying(), types.Typ[types.Bool]) {
+		return false
+	}
+	verdicts := map[bool]bool{}
+	for _, ret := range rets {
+		for _, v := range resultsAt(ret.Block(), ret.Results[0]) {
+			switch {
+			case isBool(v, true):
+				verdicts[true] = true
+			case isBool(v, false):
+				verdicts[false] = true
+			default:
+				return false
+			}
+		}
+	}
+	if len(verdicts) != 1 {
+		return false
+	}
+	verdict := verdicts[true]
+	sites := callSitesOf(f, []*ssa.Function{route})
+	if len(sites) == 0 {
+		return false
+	}
+	for _, site := range sites {
+		cl, isCall := site.(*ssa.Call)
+		if !isCall {
+			return false
+		}
+		decided := false
+		var visit func(v ssa.Value, pol bool) bool
+		visit = func(v ssa.Value, pol bool) bool {
+			for _, r := range ssau.Referrers(v) {
+				switch x := r.(type) {
+				case *ssa.If:
+					succ := x.Block().Succs[0]
+					if !pol {
+						succ = x.Block().Succs[1]
+					}
+					if !c14RoutesNowhere(route, x.Block(), succ, depth+1) {
+						return false
+					}
+					decided = true
+				case *ssa.UnOp:
+					if x.Op != token.NOT || !visit(x, !pol) {
+						return false
+					}
+				case *ssa.DebugRef:
+				default:
+					return false // the verdict goes somewhere this rule does not follow
+				}
+			}
+			return true
+		}
+		if !visit(cl, verdict) || !decided {
+			return false
+		}
+	}
+	return true
 }
 
 func C14(c *Ctx) {
@@ -264,45 +379,36 @@ func C14(c *Ctx) {
 	if route := c.fn("cmd/mcrew", "Service", "Route"); route != nil {
 		c.R.Fn(fname(route))
 		names := map[string]bool{}
-		ssau.Instrs(route, func(in ssa.Instruction) {
-			bo, ok := in.(*ssa.BinOp)
-			if !ok || bo.Op != token.EQL {
-				return
+		// the comparisons may sit in Route or in a helper that answers "a service took it" (a bool) to Route
+		nameFns := []*ssa.Function{route}
+		for _, h := range pkgClosure(route) {
+			if h != route && h.Parent() == nil && len(callSitesOf(h, []*ssa.Function{route})) > 0 {
+				nameFns = append(nameFns, h)
 			}
-			s, isS := ssau.ConstString(bo.Y)
-			if !isS {
-				return
-			}
-			for _, r := range ssau.Referrers(bo) {
-				iff, isIf := r.(*ssa.If)
-				if !isIf {
-					continue
+		}
+		for _, h := range nameFns {
+			h := h
+			ssau.Instrs(h, func(in ssa.Instruction) {
+				bo, ok := in.(*ssa.BinOp)
+				if !ok || bo.Op != token.EQL {
+					return
 				}
-				// all returns reachable from the true edge (before any other case) return nil ids and all=false
-				okNone := true
-				seen := map[*ssa.BasicBlock]bool{}
-				stack := []*ssa.BasicBlock{iff.Block().Succs[0]}
-				for len(stack) > 0 {
-					b := stack[len(stack)-1]
-					stack = stack[:len(stack)-1]
-					if seen[b] {
+				s, isS := ssau.ConstString(bo.Y)
+				if !isS {
+					return
+				}
+				for _, r := range ssau.Referrers(bo) {
+					iff, isIf := r.(*ssa.If)
+					if !isIf {
 						continue
 					}
-					seen[b] = true
-					if ret, isRet := b.Instrs[len(b.Instrs)-1].(*ssa.Return); isRet {
-						cst, isC := ret.Results[1].(*ssa.Const)
-						if !ssau.IsNilConst(ret.Results[0]) || !isC || cst.Value.String() != "false" {
-							okNone = false
-						}
-						continue
+					// all returns reachable from the true edge (before any other case) return nil ids and all=false
+					if c14RoutesNowhere(route, iff.Block(), iff.Block().Succs[0], 0) {
+						names[s] = true
 					}
-					stack = append(stack, b.Succs...)
 				}
-				if okNone {
-					names[s] = true
-				}
-			}
-		})
+			})
+		}
 		var nl []string
 		for k := range names {
 			nl = append(nl, k)
@@ -325,7 +431,7 @@ func C14(c *Ctx) {
 		c.R.Check(okOne, "C14-R2", "mcrew Route: a machine id addresses exactly that machine", c.P.Pos(route.Pos()), "singleton", "a routing target does not yield exactly the named machine")
 	}
 	// ---- R3 queue in ProcessMsg
-	cq := findCrewQueue(pm)
+	cq := findCrewQueue(c.P, pm)
 	if cq == nil {
 		c.R.Violate("C14-R3", "ProcessMsg: pending queue", c.P.Pos(pm.Pos()), "the pending queue is not a slice variable whose first element is taken in a loop (cannot establish FIFO order)")
 	} else {
@@ -333,6 +439,31 @@ func C14(c *Ctx) {
 		okQ := true
 		var why []string
 		pops, pushes := 0, 0
+		// inCycle: the instruction can run more than once per ProcessMsg call: it is on a cycle of its function, or it
+		// sits in a helper / method that the dequeue loop runs
+		inCycle := func(in ssa.Instruction) bool {
+			if flow.InCycle(in.Block()) {
+				return true
+			}
+			if in.Parent() == pm {
+				return false
+			}
+			site := w.liftTo(pm, in)
+			return site == nil || flow.InCycle(site.Block())
+		}
+		// nilBack: a helper the queue is handed to can give back no queue
+		nilBack := func(cl *ssa.Call, idx int) bool {
+			h := cl.Common().StaticCallee()
+			if h == nil {
+				return true
+			}
+			for _, b := range h.Blocks {
+				if ret, isRet := b.Instrs[len(b.Instrs)-1].(*ssa.Return); isRet && idx < len(ret.Results) && ssau.IsNilConst(ret.Results[idx]) {
+					return true
+				}
+			}
+			return false
+		}
 		for _, m := range w.members(cq.q) {
 			switch v := m.(type) {
 			case *ssa.Slice:
@@ -350,7 +481,7 @@ func C14(c *Ctx) {
 					why = append(why, "queue re-sliced as "+v.String())
 					continue
 				}
-				if _, isAl := v.X.(*ssa.Alloc); isAl && !flow.InCycle(v.Block()) {
+				if _, isAl := v.X.(*ssa.Alloc); isAl && !inCycle(v) {
 					continue // initial make / literal
 				}
 				okQ = false
@@ -360,20 +491,32 @@ func C14(c *Ctx) {
 					pushes++
 					continue
 				}
+				if w.linked[v] && !nilBack(v, 0) {
+					continue // the queue comes back from the helper it was handed to (the helper's code is part of the web)
+				}
 				okQ = false
 				why = append(why, "queue assigned "+v.String())
 			case *ssa.MakeSlice:
-				if flow.InCycle(v.Block()) {
+				if inCycle(v) {
 					okQ = false
 					why = append(why, "queue re-made inside the loop")
 				}
 			case *ssa.Phi, *ssa.Alloc, *ssa.FreeVar:
+			case *ssa.FieldAddr:
+				// the queue is kept in a field of a struct local to ProcessMsg
 			case *ssa.UnOp:
 				if v.Op != token.MUL {
 					okQ = false
 					why = append(why, "queue assigned "+v.String())
 				}
 			default:
+				if ex, isEx := m.(*ssa.Extract); isEx && w.linked[m] {
+					if cl, isCl := ex.Tuple.(*ssa.Call); isCl && !nilBack(cl, ex.Index) {
+						continue // result through which the queue comes back from a helper
+					}
+				} else if _, isPar := m.(*ssa.Parameter); isPar && w.linked[m] {
+					continue // parameter through which the queue is handed to a helper
+				}
 				okQ = false
 				why = append(why, "queue assigned "+m.String())
 			}
